@@ -301,19 +301,18 @@ Section ConstructorProofs.
     for_bad_request code m = mkErr 400 code m m None.
   Proof. reflexivity. Qed.
 
-  Lemma for_client_error_with_status_ok code status :
-    has_reason status = true ->
+  Lemma for_client_error_with_status_eq code status :
     for_client_error_with_status reason_text code status =
-    Ok (mkErr status code (reason_text status) (reason_text status) None).
-  Proof.
-    intros H. unfold for_client_error_with_status, canonical_reason. rewrite H. reflexivity.
-  Qed.
+    mkErr status code (with_status_message reason_text status)
+          (with_status_message reason_text status) None.
+  Proof. reflexivity. Qed.
 
-  Lemma for_client_error_with_status_panics code status :
-    has_reason status = false ->
-    for_client_error_with_status reason_text code status = Err Panic.
+  Lemma with_status_message_spec status :
+    (has_reason status = true -> with_status_message reason_text status = reason_text status) /\
+    (has_reason status = false -> with_status_message reason_text status = bytes_of "Client Error").
   Proof.
-    intros H. unfold for_client_error_with_status, canonical_reason. rewrite H. reflexivity.
+    unfold with_status_message, canonical_reason.
+    destruct (has_reason status); split; intros; try discriminate; reflexivity.
   Qed.
 
   (* the constructors that take an internal message separately: the response
@@ -339,9 +338,9 @@ Section ConstructorProofs.
                r_status r = 400 /\ r_body r = BErrJson id code m) /\
     (exists r, respond (for_not_found reason_text code m) id = Ok r /\
                r_status r = 404 /\ r_body r = BErrJson id code (reason_text 404)) /\
-    (has_reason status = true ->
-     exists r, respond (for_client_error_with_status reason_text code status) id = Ok r /\
-               r_status r = status /\ r_body r = BErrJson id code (reason_text status)).
+    (exists r, into_response (for_client_error_with_status reason_text code status) id = Ok r /\
+               r_status r = status /\
+               r_body r = BErrJson id code (with_status_message reason_text status)).
   Proof.
     intros id Hid code m status.
     assert (Hh : forall e, exists r, into_response e id = Ok r /\ r_status r = e_status e /\
@@ -352,17 +351,9 @@ Section ConstructorProofs.
     split; [apply (Hh (mkErr 503 code (reason_text 503) m None))|].
     split; [apply (Hh (for_bad_request code m))|].
     split; [apply (Hh (mkErr 404 code (reason_text 404) m None))|].
-    intros Hr. rewrite (for_client_error_with_status_ok _ _ Hr).
-    apply (Hh (mkErr status code (reason_text status) (reason_text status) None)).
+    apply (Hh (for_client_error_with_status reason_text code status)).
   Qed.
 End ConstructorProofs.
-
-(* the clause "every public constructor and any representable status produces
-   a response" fails for for_client_error_with_status *)
-Theorem with_status_refuted :
-  exists status, is_ok (client_from_u16 status) = true /\
-    forall reason_text code, for_client_error_with_status reason_text code status = Err Panic.
-Proof. exists 444. split; reflexivity. Qed.
 
 (* ---------- 4. the request id on every response ---------- *)
 
